@@ -28,6 +28,8 @@ fn shape_case(ctx: &Ctx, rep: &mut Report, case: u64, g: &mut Sm64) {
         2 => 42,
         _ => g.next_u64(),
     };
+    // other request sizes with the same d and seed: small ones, a neighbour, and the largest in scope
+    let other_ns: Vec<usize> = vec![1, 2, n / 2, g.range(0, 255), 255];
     rep.eval();
     let r = guard(|| {
         let a: Vec<Vec<f64>> = init_with_seed(n, d, seed);
@@ -38,10 +40,11 @@ fn shape_case(ctx: &Ctx, rep: &mut Report, case: u64, g: &mut Sm64) {
         let os: Vec<Vec<f64>> = init(n, d);
         let os2: Vec<Vec<f64>> = init(n, d);
         let bigger: Vec<Vec<f64>> = init_with_seed(n + 3, d, seed);
-        (a, a2, f, det, s42, os, os2, bigger)
+        let others: Vec<Vec<Vec<f64>>> = other_ns.iter().map(|m| init_with_seed(*m, d, seed)).collect();
+        (a, a2, f, det, s42, os, os2, bigger, others)
     });
     let cj = json!({"n": n, "d": d, "seed": seed});
-    let (a, a2, f, det, s42, os, os2, bigger) = match r {
+    let (a, a2, f, det, s42, os, os2, bigger, others) = match r {
         Ok(x) => x,
         Err(m) => {
             rep.violation("init panic", mon, case, json!({"cfg": cj, "panic": m}));
@@ -79,6 +82,18 @@ fn shape_case(ctx: &Ctx, rep: &mut Report, case: u64, g: &mut Sm64) {
             }
             if bigger[i][j].to_bits() != a[i][j].to_bits() {
                 rep.violation("init_with_seed prefix-property", mon, case, json!({"cfg": cj, "i": i, "j": j}));
+                return;
+            }
+        }
+    }
+    for (m, o) in other_ns.iter().zip(&others) {
+        if o.len() != *m {
+            rep.violation("init_with_seed wrong-shape", mon, case, json!({"cfg": cj, "requested_rows": m, "rows": o.len()}));
+            return;
+        }
+        for i in 0..n.min(*m) {
+            if o[i].len() != d || (0..d).any(|j| o[i][j].to_bits() != a[i][j].to_bits()) {
+                rep.violation("init_with_seed prefix-property", mon, case, json!({"cfg": cj, "other_request_rows": m, "row": i}));
                 return;
             }
         }
